@@ -16,12 +16,12 @@ EXPLANATION = ('Per-step lemma from the MIR, decided by z3 over the reals: Verte
 def check(run):
     funcs, info = engine.load_mir('ibig')
     run.mir_info.append(info)
-    GR.from_dual(run, funcs, 'C16')
-    GR.far_plane_lemma(run, funcs, 'C16')
-    GR.build_loop(run, funcs, 'C16')
-    GR.build_loop_multi(run, funcs, 'C16')
-    SR.all_transitions(run, funcs, 'C16')       # the radius survives clone / with_faces / discard_faces / VoronoiIntegrator::with_faces
-    GR.update_safety_radius(run, funcs, 'C16', 3 if run.tier == 'quick' else 4)
+    run.guard(GR.from_dual, funcs, 'C16')
+    run.guard(GR.far_plane_lemma, funcs, 'C16')
+    run.guard(GR.build_loop, funcs, 'C16')
+    run.guard(GR.build_loop_multi, funcs, 'C16')
+    run.guard(SR.all_transitions, funcs, 'C16')       # the radius survives clone / with_faces / discard_faces / VoronoiIntegrator::with_faces
+    run.guard(GR.update_safety_radius, funcs, 'C16', 3 if run.tier == 'quick' else 4)
     run.assume('f64 read as exact reals (a bit-precise Kani version of update_safety_radius did not finish in 700 s: CBMC sqrt model)')
     run.assume('history quantifier (adding far generators leaves the cell unchanged) = composition of this lemma with the visiting order (C17): not a query')
     return run.finish(LEVEL, EXPLANATION, trusted=['rustc -Zunpretty=mir', 'z3 5.1.0 / 4.8.12, cvc5 1.0.3', 'glam / std iterator models of mirsym'])
